@@ -703,13 +703,16 @@ impl<W, R, T> CompilationScope<'_, W, R, T> {
                     .into_inner()
                 {
                     let expr = match part.as_rule() {
-                        Rule::expression => XStaticExpr::new_call_sym(
+                        Rule::f_expr => XStaticExpr::new_call_sym(
                             to_str_sym,
-                            vec![self.parse_expr(part, interner)?],
+                            vec![self.parse_expr(part.into_inner().next().unwrap(), interner)?],
                         ),
                         Rule::f_with_formatting => {
                             let mut inner = part.into_inner();
-                            let expr = self.parse_expr(inner.next().unwrap(), interner)?;
+                            let expr = self.parse_expr(
+                                inner.next().unwrap().into_inner().next().unwrap(),
+                                interner,
+                            )?;
                             let formatting = XStaticExpr::LiteralString(
                                 inner.next().unwrap().as_str().to_string(),
                             );
